@@ -243,6 +243,6 @@ package ast
 // parent's include statements: the list the reader collected (in goroutine completion order) is sorted first,
 // and the list that is merged is that sorted list.
 //@ ghost var sortedIncl []*Include scratch
-//@ func (*TaskfileGraph).Merge$1
+//@ func (*TaskfileGraph).Merge$2
 //@   site slices.SortStableFunc#1 ghost sortedIncl := arg0
 //@   site (*Taskfile).Merge#1 requires includes == sortedIncl && arg2 == includes[$i]                          [C09]
